@@ -9,6 +9,7 @@ import (
 	"strings"
 	"testing"
 
+	"verif/internal/match"
 	"verif/internal/model"
 	"verif/internal/progs"
 	"verif/internal/vk"
@@ -118,7 +119,7 @@ func run(r *vk.Run, prog []model.Node, partials map[string][]model.Node, class s
 		if rerr != nil {
 			return fail("reference says the faults are not reached / tolerated (output %q); render failed: %v", want.Out, rerr)
 		}
-		if res.Out != want.Out {
+		if !match.SameText(res.Out, want.Out) {
 			return fail("output %q, reference says %q", res.Out, want.Out)
 		}
 	}
